@@ -8,7 +8,7 @@ from ..engine import monitors, suite
 from ..runner import Divergence, Driver, Env, Outcome, Violation, diff_streams
 
 THEOREMS = ["C09_empty_expected", "C09_complete_iff", "C09_complete_ordered", "C09_complete_perm", "C09_pending_add",
-            "C09_dropped_iff_surplus", "C09_reducer_fresh_add", "C09_reducer_stale_rerun", "C09_reducer_delete",
+            "C09_dropped_iff_surplus", "C09_reducer_fresh_add", "C09_reducer_stale_rerun", "C09_reducer_rerun_skips", "C09_reducer_delete",
             "C09_drain_keeps_buffers", "C09_single_flight_partition", "C09_single_flight_once", "C09_refuted_double_count"]
 EXPLANATION = (
     "Lean: collectEvents (model of InternalContext.collect_events) returns a list iff buffer+event has exactly the expected "
